@@ -12,7 +12,7 @@ names=("$@")
 MAIN=${VERIF_CACHE:-/var/tmp/jawk-verif-cache}
 worker() {
   i=$1; shift
-  wt=/tmp/jv-wt-$i; cache=/var/tmp/jv-cache-w$i
+  wt=/tmp/jv-wt-$$-$i; cache=/var/tmp/jv-cache-$$-w$i          # unique per invocation: two regression runs may overlap
   git -C /repo worktree remove --force $wt 2>/dev/null; rm -rf $wt $cache
   git -C /repo worktree add --detach $wt HEAD >/dev/null 2>&1 || { echo "worker $i: no worktree" >> $log; return; }
   cp /repo/Cargo.lock $wt/ 2>/dev/null   # git-ignored in jawk, needed for offline builds
